@@ -147,6 +147,9 @@ def pin_inputs(L: Logic, probes, data, world: World):
     k = L.k
     hyps += _tab1(L, L.is_intervention, world.interventions)
     hyps += _tab1(L, L.is_cf, set())       # the finite worlds contain plain variables (and Intervention objects) only
+    # ... so every object is its own base variable and its own plain variable, and nothing has subscripts
+    hyps += [L.base(u) == u for u in U] + [L.plain(u) == u for u in U]
+    hyps += [L.Not(L.ivs(a, b)) for a in U for b in U]
     rank = {n: r for r, n in enumerate(world.order)}
     hyps += [L.vlt(U[i], U[j]) == z3.BoolVal(rank[i] < rank[j]) for i in range(k) for j in range(k)]
     for p in probes:
